@@ -22,8 +22,8 @@ logging.disable(logging.CRITICAL)
 from biogeme.database import Database  # noqa: E402
 import biogeme.biogeme as bio  # noqa: E402
 from biogeme.parameters import Parameters  # noqa: E402
-from biogeme.expressions import Variable, Beta, Numeric  # noqa: E402
-from biogeme.models import loglogit  # noqa: E402
+from biogeme.expressions import Variable, Beta, Numeric, PanelLikelihoodTrajectory, log  # noqa: E402
+from biogeme.models import loglogit, logit  # noqa: E402
 
 DIRTY = [False]
 
@@ -69,7 +69,11 @@ def formulas(c):
         V = {1: b['b1'] * x1, 2: b['b2'] * x2 + b['b1']}
     else:
         V = {1: b['b1'] * x1, 2: b['b2'] * x2, 3: b['b3'] + b['b1'] * x3}
-    ll = loglogit(V, None, Variable('ch'))
+    if c.get('panel'):
+        # panel data: one observation of the sample = one individual (the product over its rows)
+        ll = log(PanelLikelihoodTrajectory(logit(V, None, Variable('ch'))))
+    else:
+        ll = loglogit(V, None, Variable('ch'))
     fm = {'log_like': ll}
     if c['weight'] == 'w':
         fm['weight'] = Variable('w')
@@ -83,8 +87,22 @@ def beta_values(c):
     return {k: v / s for k, v in c['betas'].items()}
 
 
+def database(c, rows, name='c04'):
+    d = Database(name, frame(c, rows))
+    if c.get('panel'):
+        d.panel('pid')
+    return d
+
+
+def units(c, rows):
+    """observations of the sample: the rows, or the individuals of panel data"""
+    if c.get('panel'):
+        return list(range(len(set(c['cols']['pid'][r] for r in rows))))
+    return rows
+
+
 def make(c, rows, T, via='kw', **kw):
-    d = Database('c04', frame(c, rows))
+    d = database(c, rows)
     P = Parameters()
     if via == 'params':
         P.set_value(name='number_of_threads', value=T, section='MultiThreading')
@@ -103,7 +121,7 @@ def derivs(r):
 
 def evaluate(c, rows, T, via='kw', full=True):
     """everything one BIOGEME object reports on the table made of `rows` of the case's table"""
-    out = {'T': T, 'rows': rows, 'via': via}
+    out = {'T': T, 'rows': units(c, rows), 'via': via}
     pb = part(lambda: make(c, rows, T, via))
     if not pb['ok']:
         out['build'] = pb
@@ -140,13 +158,13 @@ def per_row(c, rows):
     """per-observation values of the log likelihood and of its derivatives: one-expression evaluator,
     disaggregated (expressions/calculator.py)"""
     def go():
-        d = Database('c04r', frame(c, rows))
+        d = database(c, rows, 'c04r')
         ll = formulas(c)['log_like']
         o = ll.get_value_and_derivatives(betas=beta_values(c), database=d, gradient=True, hessian=True, bhhh=True,
                                          aggregation=False, prepare_ids=True)
-        n = len(rows)
+        n = len(units(c, rows))
         # the same evaluator, aggregated (always 4 threads: evaluateExpressions.cc)
-        a = formulas(c)['log_like'].get_value_and_derivatives(betas=beta_values(c), database=Database('c04a', frame(c, rows)),
+        a = formulas(c)['log_like'].get_value_and_derivatives(betas=beta_values(c), database=database(c, rows, 'c04a'),
                                                               gradient=True, hessian=True, bhhh=True, aggregation=True, prepare_ids=True)
         return {'f': ratios(o.functions), 'g': [ratios(o.gradients[i]) for i in range(n)],
                 'h': [ratios(o.hessians[i]) for i in range(n)], 'b': [ratios(o.bhhhs[i]) for i in range(n)],
@@ -173,8 +191,8 @@ def negative(c, rows, T):
 
 
 def case_table(c):
-    n = len(c['cols']['x1'])
-    allrows = list(range(n))
+    allrows = list(range(len(c['cols']['x1'])))
+    n = len(units(c, allrows))
     res = {'cpu': mp.cpu_count(), 'n': n}
     res['rows'] = per_row(c, allrows)
     res['evals'] = [evaluate(c, allrows, T, via) for T, via in c['threads']]
@@ -222,9 +240,13 @@ def case_rethread(c):
     return {'n': n, 'rows': per_row(c, rows), 'pairs': out}
 
 
+class InjectedFault(Exception):
+    pass
+
+
 def case_bootstrap(c):
-    n = len(c['cols']['x1'])
-    rows = list(range(n))
+    rows = list(range(len(c['cols']['x1'])))
+    n = len(units(c, rows))
     bv = beta_values(c)
     res = {'n': n, 'rows': per_row(c, rows)}
     pb = part(lambda: make(c, rows, c['T'], bootstrap_samples=c['samples'], seed=c['seed']))
@@ -244,6 +266,26 @@ def case_bootstrap(c):
     res['f_before'] = part(lambda: ratio(B.calculate_likelihood(x, scaled=False)))
 
     def est():
+        k = c.get('fault_at')
+        if k:
+            # harness-side fault: the k-th call of optimize (k >= 2: a bootstrap re-estimation) raises; the
+            # caller catches the exception and keeps using the object
+            original, calls = B.optimize, [0]
+
+            def failing(starting_values=None):
+                calls[0] += 1
+                if calls[0] == k:
+                    raise InjectedFault('fault injected in optimize call %d' % k)
+                return original(starting_values)
+
+            B.optimize = failing
+            try:
+                B.estimate(run_bootstrap=True)
+                return {'interrupted': False, 'calls': calls[0]}
+            except InjectedFault:
+                return {'interrupted': True, 'calls': calls[0]}
+            finally:
+                B.optimize = original
         r = B.estimate(run_bootstrap=True)
         boot = B.bootstrap_results
         return {'nboot': 0 if boot is None else int(len(boot)),
